@@ -24,6 +24,7 @@ func main() {
 	replay := flag.String("replay", "", "violations file to replay")
 	list := flag.Bool("list", false, "list properties and rules")
 	dump := flag.Bool("dump", false, "print every obligation")
+	dev := flag.String("dev", "", "developer dump (bituses, ...)")
 	flag.Parse()
 
 	if *list {
@@ -33,6 +34,15 @@ func main() {
 		for _, r := range rules.All() {
 			fmt.Printf("%-6s min=%d thorough=%v arm64=%v  %s\n", r.ID, r.Min, r.Thorough, r.Arm64, r.Doc)
 		}
+		return
+	}
+	if *dev != "" {
+		prog, err := core.Load(*repo, "amd64")
+		if err != nil {
+			fmt.Println(err)
+			os.Exit(2)
+		}
+		rules.Dev(*dev, core.NewDevCtx(prog))
 		return
 	}
 	var only map[string]bool
